@@ -6,6 +6,8 @@ A violation is a dict: property, invariant, signature, exec (index), detail, obs
 from cs_util import *  # noqa: F401,F403
 from cs_world import file_class, phase_of, DEFAULT_TIMEOUT
 
+CORPUS_BPS = load_corpus()["blueprints"]
+
 SDK_FILES = ("sdk/Cargo.toml", "sdk/src/lib.rs")
 AW_FILES = ("sdk/Cargo.toml", "sdk/src/lib.rs", "Cargo.toml")  # what AppWriter persists
 
@@ -128,7 +130,7 @@ def evaluate(world, run):
                  f"killed after {ex['wall_s']} s: the process never gave up waiting for a lock held by a suspended pavexc process")
             continue
         if ex["timed_out"]:
-            viol("C09", "terminates", "wall-clock-timeout", ex,
+            viol("C09", "terminates", "wall-clock-timeout" + (f":{step['bp']}" if CORPUS_BPS.get(step.get("bp"), {}).get("known_hang") else ""), ex,
                  f"killed after {ex['wall_s']} s wall-clock (limit {ex.get('limit_s', step.get('timeout', DEFAULT_TIMEOUT))} s)")
             continue
         if not relaxed:
